@@ -1,7 +1,7 @@
 """C01 - Transpilation preserves the action of the circuit."""
 import os
 
-from translate import native, templates
+from translate import native, snaps, templates
 from vlib import fingerprint
 from vlib.common import load_known
 
@@ -22,8 +22,11 @@ def run(ctx):
         "phases are turns (as the transpiler, the repo's tests and IonQ's API use them), MS(phi0, phi1) carries phi0 on its "
         "first target (IonQ's convention; the docstring matrix is written with the first target as the most significant bit); "
         "snapping tests `|theta - K| < epsilon` are idealised to theta = K (the documented epsilon)",
-        "partial: KAK/SU(2) numeric bodies (guarded by the decomposer's own output validation since fix 8e85f3f), "
-        "Pauli-string decomposers and epsilon-snapping passes are covered by the sweep only",
+        "hand model coq/model/PauliRot.v of PauliRotationDecomposeTranspiler / rot_gates / PauliDecomposeTranspiler (strings "
+        "of any length), run by vm_compute against decompose() (corr_C01.py) + AST fingerprints; translate/snaps.py "
+        "(fail-closed translator of the RX/RY/RZ2Named and ZeroRotationElimination if-chains)",
+        "partial: KAK/SU(2) numeric bodies (guarded by the decomposer's own output validation since fix 8e85f3f) are "
+        "covered by the sweep only; snapping tests |theta - K| < epsilon are idealised to theta = K",
     ]
     ctx.translate("templates", templates.run, os.path.join(ctx.work, "gen"),
                   os.path.join(ctx.work, "templates.json"))
@@ -36,7 +39,12 @@ def run(ctx):
     u1q_bad = sorted(k.split(":")[-1] for k in known if k.startswith("sweep:U1qNormalizeWithRZTranspiler:"))
     ctx.translate("native-passes", native.run, os.path.join(ctx.work, "gen"), os.path.join(ctx.work, "nativegen.json"),
                   u1q_bad)
-    ctx.coq(["templates.v", "fusers.v", "native.v", "nativegen.v"], ["C01.v", "C01_refuted.v"], optional=("C01_refuted.v",))
+    ctx.translate("snapping", snaps.run, os.path.join(ctx.work, "gen"), os.path.join(ctx.work, "snaps.json"))
+    fingerprint.check(ctx, "packages/circuit/quri_parts/circuit/transpile/multi_pauli_decomposer.py",
+                      ["PauliDecomposeTranspiler.decompose", "rot_gates", "PauliRotationDecomposeTranspiler.decompose",
+                       "ParametricPauliRotationDecomposeTranspiler.add_decomposed_gates"])
+    ctx.coq(["templates.v", "fusers.v", "native.v", "nativegen.v", "snaps.v"], ["C01.v", "C01_refuted.v"],
+            optional=("C01_refuted.v",))
     if os.path.exists(os.path.join(ctx.work, "templates.json")):
         ctx.harness("corr_C01.py", kind="corr")
     ctx.harness("sweep_C01.py")
